@@ -300,3 +300,92 @@ def e_corrupt(k: int) -> bool:
         if not ok:
             _say(msg)
         return ok
+
+
+# --------------------------------------------------------------------------- large restores (more chunks than any batching window; C04_d)
+_BIGBASE = {}
+BIG_N = [6500, 15000]        # bytes; with 4..8-byte chunks about 1100 and 2500 chunk references in one file
+
+
+def _base_big(encrypted, ni):
+    key = (encrypted, ni)
+    if key in _BIGBASE:
+        return _BIGBASE[key]
+    import random
+    d = Path(world.tempfile.mkdtemp(prefix='c04big', dir=str(world.WORK)))
+    h = hist.History(d, encrypted=encrypted)
+    src = d / 'data'
+    src.mkdir()
+    body = random.Random(ni).randbytes(BIG_N[ni])
+    (src / 'big.bin').write_bytes(body)
+    res = h.snapshot_paths('A', [src])
+    f = res.data['files'][0]
+    order = [h.repos['A']._chunk_digest_to_location(res.chunks[c['index']]) for c in sorted(f['chunks'], key=lambda c: c['counter'])]
+    expect = {str((src / 'big.bin').resolve()): body}
+    world.shutil.rmtree(d, ignore_errors=True)
+    _BIGBASE[key] = (h.U, dict(h.be.objs), expect, order)
+    return _BIGBASE[key]
+
+
+BIG_KINDS = ['flip', 'truncate', 'swap', 'delete', 'flip+swap', 'replay']
+
+
+def big_corrupt_case(encrypted, ni, pos_i, kind, conc):
+    U, objs, expect, order = _base_big(encrypted, ni)
+    rt.determinism(13)
+    objs = dict(objs)
+    n = len(order)
+    # position of the damaged reference in the file: first, early, just past 1000, middle, last but ~1000, last
+    q = [0, 7, min(1001, n - 1), n // 2, max(n - 1003, 0), n - 1][pos_i]
+    name = order[q]
+    other = next(o for o in order[(q + 501) % n:] + order if o != name and objs[o] != objs[name])
+
+    def flip(nm):
+        b = bytearray(objs[nm])
+        b[len(b) // 2] ^= 0x10
+        objs[nm] = bytes(b)
+    if kind == 'flip':
+        flip(name)
+    elif kind == 'truncate':
+        objs[name] = objs[name][:-1]
+    elif kind == 'swap':
+        objs[name], objs[other] = objs[other], objs[name]
+    elif kind == 'delete':
+        del objs[name]
+    elif kind == 'replay':
+        objs[name] = objs[other]
+    else:
+        flip(name)
+        third = order[(q + 1200) % n]
+        if third not in (name, other):
+            objs[third], objs[other] = objs[other], objs[third]
+    with world.scratch('c04b') as d:
+        be = rt.MemBackend(objs)
+        r = fresh_repo(U, 'A', be, concurrent=conc)
+        out = d / 'out'
+        try:
+            rt.MiniLoop(budget=4_000_000).run_until_complete(r.restore(path=out))
+        except Exception as e:
+            return True, 'raised ' + type(e).__name__
+        got = {'/' + k: v[0] for k, v in world.tree_state(out).items()}
+        if got != expect:
+            g = next(iter(got.values()), b'')
+            w = next(iter(expect.values()))
+            nd = sum(1 for a, b in zip(g, w) if a != b) + abs(len(g) - len(w))
+            return False, (f'{kind} of the chunk object behind reference {q} of {n}: restore reported success but the file differs from the original '
+                           f'in {nd} byte(s)')
+        return True, 'ok'
+
+
+def e_big_corrupt(k: int) -> bool:
+    """
+    pre: shard(2 * 2 * 6 * 6 * 2)[0] <= k < shard(2 * 2 * 6 * 6 * 2)[1]
+    post: _
+    """
+    enc, ni, pos_i, kind, ci = digits(k, [2, 2, 6, 6, 2])
+    with NoTracing():
+        ok, msg = big_corrupt_case(bool(enc), ni, pos_i, BIG_KINDS[kind], [2, 5][ci])
+        tick('e_big_corrupt', [enc, ni, pos_i, kind, ci, msg[:12]])
+        if not ok:
+            _say(msg)
+        return ok
